@@ -258,20 +258,24 @@ theorem StRel.push {st : St σ} {st' : St τ} (h : StRel R st st') {s : σ} {t :
 section
 variable {I : Impl σ} {J : Impl τ}
 
-theorem runM_sim (hv : Sim I J R) {st : St σ} {st' : St τ} (h : StRel R st st') (i : Nat)
-    {x : M σ Val} {y : M τ Val} (hx : RelM R x y) :
+/-- local versions: the method pair only has to agree on the readers at slot `i` -/
+theorem runM_sim' (hview : ∀ s t, R s t → (I.view s).toView = (J.view t).toView)
+    {st : St σ} {st' : St τ} (h : StRel R st st') (i : Nat) {x : M σ Val} {y : M τ Val}
+    (hx : ∀ s t, st.get i = some s → st'.get i = some t → R s t →
+      (x s).1 = (y t).1 ∧ R (x s).2 (y t).2) :
     (runM I st i x).1 = (runM J st' i y).1 ∧ StRel R (runM I st i x).2 (runM J st' i y).2 := by
   have hr := h.rs i
   unfold runM
   cases hg : st.get i <;> cases hg' : st'.get i <;> rw [hg, hg'] at hr <;> simp only [OptRel] at hr
   · exact ⟨rfl, h⟩
   · rename_i s t
-    have h1 := hx s t hr
+    have h1 := hx s t hg hg' hr
     simp only
-    exact ⟨by rw [h1.1, hv.view _ _ h1.2], h.set i h1.2⟩
+    exact ⟨by rw [h1.1, hview _ _ h1.2], h.set i h1.2⟩
 
-theorem runQ_sim (hv : Sim I J R) {st : St σ} {st' : St τ} (h : StRel R st st') (i : Nat)
-    {x : σ → Out Val} {y : τ → Out Val} (hx : ∀ s t, R s t → x s = y t) :
+theorem runQ_sim' (hview : ∀ s t, R s t → (I.view s).toView = (J.view t).toView)
+    {st : St σ} {st' : St τ} (h : StRel R st st') (i : Nat) {x : σ → Out Val} {y : τ → Out Val}
+    (hx : ∀ s t, st.get i = some s → st'.get i = some t → R s t → x s = y t) :
     (runQ I st i x).1 = (runQ J st' i y).1 ∧ StRel R (runQ I st i x).2 (runQ J st' i y).2 := by
   have hr := h.rs i
   unfold runQ
@@ -279,17 +283,19 @@ theorem runQ_sim (hv : Sim I J R) {st : St σ} {st' : St τ} (h : StRel R st st'
   · exact ⟨rfl, h⟩
   · rename_i s t
     simp only
-    exact ⟨by rw [hv.view s t hr, hx s t hr], h⟩
+    exact ⟨by rw [hview s t hr, hx s t hg hg' hr], h⟩
 
-theorem runNew_sim (hv : Sim I J R) {st : St σ} {st' : St τ} (h : StRel R st st') (i : Nat)
-    {x : M σ σ} {y : M τ τ} (hx : RelNew R x y) :
+theorem runNew_sim' (hview : ∀ s t, R s t → (I.view s).toView = (J.view t).toView)
+    {st : St σ} {st' : St τ} (h : StRel R st st') (i : Nat) {x : M σ σ} {y : M τ τ}
+    (hx : ∀ s t, st.get i = some s → st'.get i = some t → R s t →
+      OutRel R (x s).1 (y t).1 ∧ R (x s).2 (y t).2) :
     (runNew I st i x).1 = (runNew J st' i y).1 ∧ StRel R (runNew I st i x).2 (runNew J st' i y).2 := by
   have hr := h.rs i
   unfold runNew
   cases hg : st.get i <;> cases hg' : st'.get i <;> rw [hg, hg'] at hr <;> simp only [OptRel] at hr
   · exact ⟨rfl, h⟩
   · rename_i s t
-    have h1 := hx s t hr
+    have h1 := hx s t hg hg' hr
     rcases hxs : x s with ⟨o, s1⟩
     rcases hyt : y t with ⟨o', t1⟩
     rw [hxs, hyt] at h1
@@ -299,10 +305,25 @@ theorem runNew_sim (hv : Sim I J R) {st : St σ} {st' : St τ} (h : StRel R st s
     cases o <;> cases o' <;> simp only [OutRel] at h1a
     · rename_i r r'
       simp only
-      exact ⟨by rw [hv.view s1 t1 h1b, hv.view r r' h1a], (h.set i h1b).push h1a⟩
-    · subst h1a; simp only; exact ⟨by rw [hv.view s1 t1 h1b], h.set i h1b⟩
-    · subst h1a; simp only; exact ⟨by rw [hv.view s1 t1 h1b], h.set i h1b⟩
-    · simp only; exact ⟨by rw [hv.view s1 t1 h1b], h.set i h1b⟩
+      exact ⟨by rw [hview s1 t1 h1b, hview r r' h1a], (h.set i h1b).push h1a⟩
+    · subst h1a; simp only; exact ⟨by rw [hview s1 t1 h1b], h.set i h1b⟩
+    · subst h1a; simp only; exact ⟨by rw [hview s1 t1 h1b], h.set i h1b⟩
+    · simp only; exact ⟨by rw [hview s1 t1 h1b], h.set i h1b⟩
+
+theorem runM_sim (hv : Sim I J R) {st : St σ} {st' : St τ} (h : StRel R st st') (i : Nat)
+    {x : M σ Val} {y : M τ Val} (hx : RelM R x y) :
+    (runM I st i x).1 = (runM J st' i y).1 ∧ StRel R (runM I st i x).2 (runM J st' i y).2 :=
+  runM_sim' hv.view h i (fun s t _ _ hr => hx s t hr)
+
+theorem runQ_sim (hv : Sim I J R) {st : St σ} {st' : St τ} (h : StRel R st st') (i : Nat)
+    {x : σ → Out Val} {y : τ → Out Val} (hx : ∀ s t, R s t → x s = y t) :
+    (runQ I st i x).1 = (runQ J st' i y).1 ∧ StRel R (runQ I st i x).2 (runQ J st' i y).2 :=
+  runQ_sim' hv.view h i (fun s t _ _ hr => hx s t hr)
+
+theorem runNew_sim (hv : Sim I J R) {st : St σ} {st' : St τ} (h : StRel R st st') (i : Nat)
+    {x : M σ σ} {y : M τ τ} (hx : RelNew R x y) :
+    (runNew I st i x).1 = (runNew J st' i y).1 ∧ StRel R (runNew I st i x).2 (runNew J st' i y).2 :=
+  runNew_sim' hv.view h i (fun s t _ _ hr => hx s t hr)
 
 /-- one operation on corresponding tables: same observation, corresponding tables afterwards
 (`empty` needs the extra hypothesis that it preserves `R`) -/
